@@ -179,9 +179,15 @@ def search_patterns_for(R, vp, names, cur_text, n, legacy=False, allow_pep=True,
             continue
         if legacy:
             p = p.replace("\\[", "(").replace("\\]", ")")
-        if p not in pats:
+        elif ("{version}" in p or "{pep440_version}" in p) and not bare_mode and R.random() < 0.2:
+            p += "$"      # anchored at the end of the line (README style): the occurrence ends its line
+        if p not in pats and p + "$" not in pats and p.rstrip("$") not in pats:
             pats.append(p)
     return pats
+
+
+def is_end_anchored(raw):
+    return raw.endswith("$") and not raw.endswith("\\$")
 
 
 def _determined(names, part):
@@ -427,7 +433,8 @@ def gen_project(R, bvmods, today, *, eol_choices=("\n",), filler="plain", legacy
 
     def occurrence(raw):
         nonlocal old_vinfo
-        norm = normalize(bvmods, vp, raw, legacy)
+        # a trailing `$` anchors the match at the end of the line and is not part of the text
+        norm = normalize(bvmods, vp, raw[:-1] if is_end_anchored(raw) else raw, legacy)
         kind = "pep440" if "{pep440_version}" in raw else ("version" if "{version}" in raw else "partial")
         if kind == "pep440":
             # what bumpver itself wrote last time (setup only; the oracle after the update is independent)
@@ -443,8 +450,11 @@ def gen_project(R, bvmods, today, *, eol_choices=("\n",), filler="plain", legacy
     fill = plain_filler if filler == "plain" else unicode_filler
     for fn in fnames:
         eol_mode = R.choice(eol_choices)
-        proj.eol[fn] = {"\n": "LF", "\r\n": "CRLF", "\r": "CR"}.get(eol_mode, "mixed")
         pats = list(eff[fn])
+        if eol_mode == "mixed" and any(is_end_anchored(p) for p in pats):
+            # with mixed separators bumpver's "line" is not the physical line, `$` has no physical-line meaning there
+            eol_mode = R.choice([e for e in eol_choices if e != "mixed"] or ["\n"])
+        proj.eol[fn] = {"\n": "LF", "\r\n": "CRLF", "\r": "CR"}.get(eol_mode, "mixed")
         segs = []   # list of line segment lists: each line = list of (text, plant-or-None)
         pending = pats[:]
         R.shuffle(pending)
@@ -459,11 +469,18 @@ def gen_project(R, bvmods, today, *, eol_choices=("\n",), filler="plain", legacy
             if len(pending) > 1 and R.random() < shared_line_p and eol_mode != "mixed":
                 k = R.randint(2, min(3, len(pending)))
             group = [pending.pop() for _ in range(k)]
+            # an end-anchored pattern goes last on its line and nothing follows it
+            group.sort(key=is_end_anchored)
+            while sum(1 for g in group if is_end_anchored(g)) > 1:
+                pending.append(group.pop())
             line = [(fill(R, R.randint(0, 3)) + (" " if R.random() < 0.8 else ""), None)]
             for gi, raw in enumerate(group):
                 norm, kind, a_, text = occurrence(raw)
                 line.append((text, (raw, norm, kind, a_)))
                 sep = R.choice([" ", "  ", " | ", ", ", "; ", "\t"])
+                if is_end_anchored(raw):
+                    proj.meta["end_anchored_patterns"] = proj.meta.get("end_anchored_patterns", 0) + 1
+                    continue
                 line.append(((sep if gi < len(group) - 1 else R.choice(["", " ", " # ", "\t"])) + (fill(R, R.randint(0, 2)) if gi == len(group) - 1 else ""), None))
             lines.append(line)
             for _ in range(R.randint(0, 2)):
@@ -471,7 +488,7 @@ def gen_project(R, bvmods, today, *, eol_choices=("\n",), filler="plain", legacy
         for raw in extras:
             norm, kind, a_, text = occurrence(raw)
             lines.append([(fill(R, R.randint(0, 2)) + " ", None), (text, (raw, norm, kind, a_)),
-                          (R.choice(["", " ", " # again"]), None)])
+                          ("" if is_end_anchored(raw) else R.choice(["", " ", " # again"]), None)])
             proj.meta["repeated_occurrences"] = proj.meta.get("repeated_occurrences", 0) + 1
             for _ in range(R.randint(0, 1)):
                 lines.append([(fill(R), None)])
@@ -541,6 +558,7 @@ def gen_project(R, bvmods, today, *, eol_choices=("\n",), filler="plain", legacy
         return None, "layout:" + why.split(":")[0]
     proj.meta = {"cfg_comment": proj.meta.get("cfg_comment"), "repeated_occurrences": proj.meta.get("repeated_occurrences", 0), "cfg_extra": commit_cfg, "bom_files": proj.meta.get("bom_files", []), "n_files": nf, "fmt": fmt, "explicit_cfg": explicit_cfg, "quote": quote,
                  "aliased_path_entries": proj.meta.get("aliased_path_entries", 0),
+                 "end_anchored_patterns": proj.meta.get("end_anchored_patterns", 0),
                  "shared_lines": sum(1 for _ in _shared_lines(proj)), "kinds": sorted({p.kind for p in proj.plants}),
                  "eols": sorted(set(proj.eol.values())), "globs": sum(1 for k, _ in entries if "*" in k or "?" in k)}
     return proj, None
@@ -551,7 +569,8 @@ def _pep_prefix(pl):
 
 
 def _pep_suffix(pl):
-    return _unesc(pl.raw.split("{pep440_version}")[1])
+    raw = pl.raw[:-1] if is_end_anchored(pl.raw) else pl.raw
+    return _unesc(raw.split("{pep440_version}")[1])
 
 
 def _unesc(s):
@@ -704,6 +723,11 @@ def gen_legacy_project(R, bvmods, *, n_files=None, eol_choices=("\n",)):
     for fn in fnames:
         decs = R.sample(LEGACY_DECOR, R.randint(1, 3))
         pats = [a + "{version}" + b for a, b in decs]
+        if R.random() < 0.3:
+            # regex anchors work in legacy patterns too: the occurrence starts / ends its line
+            i = R.randrange(len(pats))
+            pats[i] = R.choice(["^" + pats[i], pats[i] + "$", "^" + pats[i] + "$"])
+            proj.meta["legacy_anchored_patterns"] = proj.meta.get("legacy_anchored_patterns", 0) + 1
         entries.append((fn, pats))
     selfp = 'current_version = "{version}"'
     explicit = R.random() < 0.5
@@ -731,14 +755,21 @@ def gen_legacy_project(R, bvmods, *, n_files=None, eol_choices=("\n",)):
                     t = plain_filler(R) + eol
                     out.append(t)
                     pos += len(t)
-            pre = plain_filler(R, R.randint(0, 2)) + " "
-            occ = raw.replace("{version}", proj.cur_text)
+            core = raw[1:] if raw.startswith("^") else raw
+            core = core[:-1] if core.endswith("$") else core
+            if raw.startswith("^") and share_next:
+                # cannot start the line here: finish the current line first
+                out[-1] = out[-1][:-3] + eol
+                pos += len(eol) - 3
+                share_next = False
+            pre = "" if raw.startswith("^") else plain_filler(R, R.randint(0, 2)) + " "
+            occ = core.replace("{version}", proj.cur_text)
             out.append(pre)
             pos += len(pre)
             proj.plants.append(Plant(file=fn, start=pos, end=pos + len(occ), kind="version", raw=raw,
                                      norm=raw.replace("{version}", vp), ast=None, text=occ))
             # two different patterns may share a line (each is rewritten at its own place)
-            share_next = i + 1 < len(order) and R.random() < 0.3
+            share_next = i + 1 < len(order) and R.random() < 0.3 and not raw.endswith("$")
             tail = " | " if share_next else eol
             out.append(occ + tail)
             pos += len(occ) + len(tail)
@@ -752,6 +783,7 @@ def gen_legacy_project(R, bvmods, *, n_files=None, eol_choices=("\n",)):
                              norm=selfp.replace("{version}", vp), ast=None, text=needle))
     proj.eol[proj.cfg_name] = "LF"
     proj.meta = {"n_files": nf, "fmt": "toml", "explicit_cfg": explicit, "legacy": True, "kinds": ["version"],
+                 "legacy_anchored_patterns": proj.meta.get("legacy_anchored_patterns", 0),
                  "eols": sorted(set(proj.eol.values())), "globs": 0, "shared_lines": proj.meta.get("shared_lines", 0),
                  "cfg_extra": proj.meta.get("cfg_extra")}
     return proj, None
